@@ -73,6 +73,11 @@ type tcase struct {
 	// Values handed out (owned.go): by default one of 625 edit combinations derived from the case and the call
 	// index; Edits[i] != "" names the edits after call i explicitly (corpus cases; syntax: see handed.edit).
 	Edits []string `json:"edits,omitempty"`
+	// post path only (post.go): Names / Vals are the WRITTEN members (text encoding), placed as Form says and
+	// processed; PostN / PostV are the calls made afterwards on the resolved table ("-" SetNext, else Set with
+	// that decimal value).
+	PostN []string `json:"post_names,omitempty"`
+	PostV []string `json:"post_vals,omitempty"`
 }
 
 func (c tcase) key() string {
@@ -81,6 +86,9 @@ func (c tcase) key() string {
 
 func (c tcase) req() string {
 	op := "enum.text"
+	if c.Path == "post" {
+		return "enum.after" + c.afterArgs()
+	}
 	if c.Path == "ops" {
 		op = "enum.steps" // the table is read back after every call
 	}
@@ -98,6 +106,9 @@ func (c tcase) args() string {
 
 func (c tcase) specReq() string {
 	op := "spec.steps" // the assignment of every prefix of the calls
+	if c.Path == "post" {
+		return "spec.after" + c.afterArgs()
+	}
 	if c.Path == "text" {
 		op = "spec.text"
 	}
@@ -341,6 +352,30 @@ func yangFiles(c tcase) (files [][2]string, firstLine int) {
 		pre, post = head+" typedef t1 { ", " }\n typedef t2 { type t1; }\n typedef t3 { type t2; }\n leaf l { type t3; } }\n"
 	case "grouping":
 		pre, post = head+" grouping g { leaf l { ", " } }\n container c1 { uses g; }\n container c2 { uses g; } }\n"
+	// typedef-based placements of the post path (post.go): the table is reached through the typedef
+	case "chain2":
+		pre, post = head+" typedef t1 { ", " }\n typedef t2 { type t1; }\n leaf l { type t2; } }\n"
+	case "tdll":
+		pre, post = head+" typedef t { ", " }\n leaf-list l { type t; } }\n"
+	case "tdu":
+		pre, post = head+" typedef t { ", " }\n leaf l { type union { type t; type string; } } }\n"
+	case "tdu2":
+		pre, post = head+" typedef t1 { ", " }\n typedef t2 { type t1; }\n leaf l { type union { type string; type t2; } } }\n"
+	case "tdtu":
+		pre, post = head+" typedef t { ", " }\n typedef u { type union { type t; type string; } }\n leaf l { type u; } }\n"
+	case "tdtwo":
+		pre, post = head+" typedef t { ", " }\n leaf l { type t; }\n leaf l2 { type t; } }\n"
+	case "tdgrp":
+		pre, post = head+" grouping g { typedef t { ", " }\n leaf l { type t; } }\n container c1 { uses g; }\n container c2 { uses g; } }\n"
+	case "tddr":
+		files = append(files, [2]string{"o.yang", "module o { namespace \"urn:o\"; prefix o; leaf l { type string; } }\n"})
+		pre = "module m { namespace \"urn:m\"; prefix m; import o { prefix o; } feature f; extension note { argument t; }\n typedef t { "
+		post = " }\n deviation /o:l { deviate replace { type t; } } }\n"
+	case "tdimp":
+		pre = "module o { namespace \"urn:o\"; prefix o; feature f; extension note { argument t; }\n typedef t { "
+		files = append(files, [2]string{"o.yang", pre + gen + " } }\n"},
+			[2]string{"m.yang", "module m { namespace \"urn:m\"; prefix m; import o { prefix o; }\n leaf l { type o:t; } }\n"})
+		return files, strings.Count(pre, "\n") + 2
 	case "u1", "u2", "u3":
 		var others []string
 		if len(c.Twin) > 0 {
@@ -430,12 +465,15 @@ func tables(c tcase, ms *yang.Modules) []*yang.EnumType {
 		return e.Type
 	}
 	switch c.Form {
-	case "dr", "da":
+	case "dr", "da", "tddr":
 		return []*yang.EnumType{pick(typeOf(yang.ToEntry(ms.Modules["o"]), "l"))}
-	case "grouping":
+	case "tdtwo":
+		m := yang.ToEntry(ms.Modules["m"])
+		return []*yang.EnumType{pick(typeOf(m, "l")), pick(typeOf(m, "l2"))}
+	case "grouping", "tdgrp":
 		m := yang.ToEntry(ms.Modules["m"])
 		return []*yang.EnumType{pick(typeOf(m, "c1", "l")), pick(typeOf(m, "c2", "l"))}
-	case "u1", "u2", "u3", "r3":
+	case "u1", "u2", "u3", "r3", "tdu", "tdu2", "tdtu":
 		u := typeOf(yang.ToEntry(ms.Modules["m"]), "l")
 		if u == nil {
 			return []*yang.EnumType{nil}
@@ -593,6 +631,9 @@ func runGo(c tcase) (out string) {
 			out = fmt.Sprintf("panic: %v", r)
 		}
 	}()
+	if c.Path == "post" {
+		return runPost(c)
+	}
 	if c.Path == "ops" {
 		e := yang.NewEnumType()
 		if c.Kind == "b" {
@@ -773,6 +814,9 @@ func judge(c tcase, g, s string) (bool, string) {
 	}
 	if i := strings.Index(g, "origin-differs"); i >= 0 {
 		return false, "the table reached through the statement tree is not the table of the Entry: " + g[i:]
+	}
+	if c.Path == "post" {
+		return judgePost(c, g, s)
 	}
 	if s == "na" {
 		return true, "outside the claimed literal form"
@@ -1435,6 +1479,50 @@ func main() {
 		}
 	}
 
+	// post path (post.go): written members, a placement, Process, then calls on the resolved table
+	postBare, postCounts := postCandidates(f)
+	postReqs := make([]string, len(postBare))
+	postSpecReqs := make([]string, len(postBare))
+	for i, c := range postBare {
+		postReqs[i] = c.req()
+		postSpecReqs[i] = c.specReq()
+	}
+	postAns, err := lib.ParBatch(f.Driver, postReqs, f.Procs)
+	if err != nil {
+		lib.Fatal("driver: %v", err)
+	}
+	postSpec, err := lib.ParBatch(f.Driver, postSpecReqs, f.Procs)
+	if err != nil {
+		lib.Fatal("driver: %v", err)
+	}
+	rp := f.Rand(4)
+	postKept := int64(0)
+	for i, c := range postBare {
+		if strings.HasPrefix(postAns[i], writtenBad) {
+			continue // the written list has errors: no resolved table (the text path covers these)
+		}
+		postKept++
+		var forms []string
+		switch {
+		case i >= postCounts.enumerated: // random ones: one placement (thorough: three)
+			forms = []string{postForms[rp.Intn(len(postForms))]}
+			if f.Thorough() {
+				forms = append(forms, postForms[rp.Intn(len(postForms))], postForms[rp.Intn(len(postForms))])
+			}
+		case len(c.Names) <= 2 || f.Thorough():
+			forms = postForms
+		default: // quick tier, three written members: two seeded placements, one of them typedef-based
+			forms = []string{postForms[rp.Intn(len(postForms))], postTypedefForms[rp.Intn(len(postTypedefForms))]}
+		}
+		for _, fm := range forms {
+			x := c
+			x.Form, x.Hist = fm, "a"
+			cases = append(cases, x)
+			ans = append(ans, postAns[i])
+			specAns = append(specAns, postSpec[i])
+		}
+	}
+
 	// run Go (text path in parallel: independent Modules values)
 	goOut := make([]string, len(cases))
 	var wg sync.WaitGroup
@@ -1453,17 +1541,22 @@ func main() {
 	nontrivial := int64(0)
 	byKey := map[string]int64{}
 	byHist := map[string]int64{}
+	byPost := map[string]int64{}
 	for _, c := range cases {
-		if distinct.Add(c.key()) && len(c.Names) >= 2 {
+		if distinct.Add(c.key()) && len(c.Names)+len(c.PostN) >= 2 {
 			nontrivial++
 		}
 		byKey[c.Kind+"/"+c.Path]++
-		if c.Path == "text" {
+		if c.Path == "text" || c.Path == "post" {
 			fm := c.Form
 			if fm == "" {
 				fm = "leaf"
 			}
-			byHist[c.Hist+"/"+fm]++
+			if c.Path == "post" {
+				byPost[fm]++
+			} else {
+				byHist[c.Hist+"/"+fm]++
+			}
 		}
 	}
 	perPlace := map[string]int{}
@@ -1515,7 +1608,7 @@ func main() {
 			nHold++
 		}
 		res.AddDisagreement(lib.Disagreement{Kind: kind, Input: c, Go: goOut[i], Model: ans[i], SpecVerdict: v,
-			What: fmt.Sprintf("%s %s: %s; spec says %s", map[string]string{"e": "enumeration", "b": "bits"}[c.Kind], c.Path, what, specAns[i]), Replay: c})
+			What: fmt.Sprintf("%s %s: %s; spec says %s", map[string]string{"e": "enumeration", "b": "bits"}[c.Kind], map[string]string{"ops": "ops", "text": "text", "post": "calls after resolution"}[c.Path], what, specAns[i]), Replay: c})
 	}
 	res.Evaluations = int64(len(cases))
 	res.DistinctNontrivial = nontrivial
@@ -1540,6 +1633,12 @@ func main() {
 		"On the text path the same is done with the tables reached through Entry.Type.Enum / .Bit after Process: of a leaf, a leaf-list, a typedef use, a chain of typedefs, both uses of a grouping (the views of the first use are edited before the second use is read), every kept member of a union (the near twin's views are edited before the generated member is read), a deviated leaf; "+
 		"then every use is read again, the tables reached through the statement tree (the type statement of the leaf, each typedef and its type statement, the leaf inside the grouping) must hold the Entry's table, and in the histories b, c, d the next Process / read follows the edits. "+
 		fmt.Sprintf("%d corpus sequences (among them the call sequence of seeded/C14-k22 with the caller's edits named explicitly, and the lists of seeded/C14-l21 with a member named by the empty string). ", len(corpus))+
+		"Calls AFTER resolution (path post): the written member lists of length 1..3 over {no value, 0, 1, -1, -5, 7, int32 max-1, int32 max, int32 min} (bits: {no position, 0, 1, 3, 7, int32 max, uint32 max-1, uint32 max}) x distinct names, for both kinds, that the model resolves without an error, "+
+		"each under 18 call sequences of length 1..3 (SetNext of a new name, of a written name, twice the same name; Set with 0, 1, 8, a value below every written one, the maximum, beyond the maximum; SetNext after each of these), plus seeded random written lists (1..6 members) x random call sequences (1..6 calls); "+
+		"the text is placed (lists up to two members: every placement; three members: two seeded placements in the quick tier, all in the thorough tier; random ones: one) in a leaf, a leaf-list, a typedef (1 level), a typedef chain of 2 and of 3 levels, a grouping used twice, a union member (first / second / third), the inline type of deviate replace / add, the four restriction placements, "+
+		"and through a typedef in a leaf-list, as a union member (directly, through a chain of 2 behind string, inside a union typedef), under two leaves, inside a grouping used twice, as the type of a deviate replace, and imported from another module. After Process the table reached through Entry.Type.Enum / .Bit is read, the calls are made on it through Set / SetNext with every view read back (and the handed-out views edited) after EVERY call, "+
+		"and the blocks are compared with the model's fold continued from the state the written members left (driver enum.after) and judged against the RFC assignment of the written members followed by the calls so far (spec.after). Every other table reachable in the processed modules (Entry trees; typedefs, type statements of leaves, leaf-lists, typedefs, union members, deviates of both modules and inside groupings) is either the same object or an independent table: "+
+		"it must not notice the calls, and when it held the written members too the same calls are made on it and must give the same blocks. "+
 		"Every Go answer (errors as member index + class, Names, Values, NameMap, ValueMap, point lookups) of every run is compared with the compiled model and judged against the RFC 7950 assignment. "+
 		"distinct_nontrivial = distinct cases with at least two members (the assignment rule is about earlier members)", maxLen, oddCount, nRand)
 	res.Distribution["enumerated_sequences"] = enumerated
@@ -1561,6 +1660,8 @@ func main() {
 	res.Distribution["lists_with_member_substatements"] = decorated
 	res.Distribution["cases_by_kind_and_path"] = byKey
 	res.Distribution["text_cases_by_history_and_form"] = byHist
+	res.Distribution["calls_after_resolution_cases_by_placement"] = byPost
+	res.Distribution["calls_after_resolution_written_lists_x_call_sequences"] = map[string]int64{"candidates": int64(len(postBare)), "enumerated": int64(postCounts.enumerated), "random": int64(postCounts.random), "with_error_free_written_list": postKept}
 	res.Distribution["spec_accepts"] = accepted
 	res.Distribution["spec_rejects"] = rejected
 	res.Distribution["spec_not_applicable"] = na
@@ -1595,8 +1696,11 @@ func replay(f *lib.Flags) {
 	if !ok {
 		v = "violates"
 	}
-	if c.Path == "text" {
+	if c.Path == "text" || c.Path == "post" {
 		fmt.Printf("yang:\n%s", yangText(c))
+	}
+	if c.Path == "post" {
+		fmt.Printf("calls made on the resolved table after Process (- = SetNext): names %q values %q\n", c.PostN, c.PostV)
 	}
 	if len(c.Edits) > 0 {
 		fmt.Printf("edits of the handed-out views after call i: %q\n", c.Edits)
